@@ -74,9 +74,16 @@ func TemplateFromCert(ctx context.Context, cert *x509.Certificate, pubKey any) (
 		timestamp = skc.Now
 	}
 
+	// The certificate serial number always equals the subject serial number; it must not be inherited
+	// from the certificate the template is cloned from.
+	template.SerialNumber = subjectSerial
 	template.Subject.CommonName = subjectCn
 	template.Subject.SerialNumber = subjectSerial.String()
 	template.NotBefore = timestamp
-	template.NotAfter = timestamp.Add(time.Duration(styp.SignValidDays) * 24 * time.Hour)
+	validDays := styp.SignValidDays
+	if cert.IsCA {
+		validDays = styp.RootValidDays
+	}
+	template.NotAfter = timestamp.Add(time.Duration(validDays) * 24 * time.Hour)
 	return &template, nil
 }
